@@ -68,6 +68,8 @@ inline json Project(const RSForm& f) {
       it["ast"] = p.ast ? rslang::AST2String::Apply(*p.ast) : std::string{};
       std::set<int> deps; for (auto d : f.RSLang().Graph().InputsFor(uid)) deps.insert(static_cast<int>(d)); it["deps"] = deps;
       it["textAlias"] = tx.alias; it["textUid"] = tx.uid; it["rsUid"] = rs.uid;
+      { std::map<std::string, std::string> fm; for (const auto& [form, text] : tx.term.GetAllManual()) fm[form.ToString()] = text;      // manual word forms, by tag string
+        json fj = json::array(); for (const auto& [k, v] : fm) fj.push_back({ k, v }); it["forms"] = fj; }
     } else it["missing"] = true;
     items.push_back(it);
   }
